@@ -1,7 +1,7 @@
 (* C19 - the command line reports success and failure through its exit status.
    Theorems about the decision table Cli.main_model. *)
 From HclV Require Import Base Cli Generated.
-From HclV Require CliArgs CliArgsSpec CliArgsProofs.
+From HclV Require CliArgs CliArgsSpec CliArgsProofs Tool ToolSpec ToolProofs.
 Open Scope string_scope.
 Open Scope N_scope.
 
@@ -147,3 +147,42 @@ Theorem C19_option_table_is_main_rs :
   gen_cli_default_timeout = Some default_timeout.
 Proof. vm_compute. repeat split; reflexivity. Qed.
 Print Assumptions C19_option_table_is_main_rs.
+
+(* ---- the whole command composed from the models of its parts (Tool.v / ToolSpec.v / ToolProofs.v):
+   options, reading the file, the built-in preamble, lexer, parser, program builder, image loader,
+   simulator and final dump - tool_main files args = (exit status, standard output) -------------- *)
+(* the composed tool takes exactly the decisions of the decision table, for the world the file
+   system induces (what each named file is for the front end, the loader, the simulator) - so the
+   C19 theorems above hold of it; it never reaches a panic of its own *)
+Theorem C19_composed_tool_refines_the_decision_table :
+  ToolSpec.stmt_tool_refines_decision /\ ToolSpec.stmt_tool_never_panics.
+Proof. split; [exact ToolProofs.tool_refines_decision_holds | exact ToolProofs.tool_never_panics_holds]. Qed.
+Print Assumptions C19_composed_tool_refines_the_decision_table.
+Theorem C19_composed_tool_exit_status :
+  ToolSpec.stmt_tool_exit_zero_iff /\ ToolSpec.stmt_tool_each_failure_cause_exits_one /\
+  ToolSpec.stmt_tool_option_order_free.
+Proof.
+  split; [exact ToolProofs.tool_exit_zero_iff_holds |].
+  split; [exact ToolProofs.tool_each_failure_cause_exits_one_holds | exact ToolProofs.tool_option_order_free_holds].
+Qed.
+Print Assumptions C19_composed_tool_exit_status.
+(* exit status 0 after a simulation: standard output ends with the dump of the state reached after
+   exactly min(timeout, first cycle with a non-OK status) cycles, the report is the one C06
+   prescribes, and under -q alone standard output is exactly that dump *)
+Theorem C19_composed_tool_final_state : ToolSpec.stmt_tool_final_state.
+Proof. exact ToolProofs.tool_final_state_holds. Qed.
+Print Assumptions C19_composed_tool_final_state.
+Theorem C19_composed_tool_check_and_files :
+  ToolSpec.stmt_tool_check_prints_only_syntax_ok /\ ToolSpec.stmt_tool_deterministic_in_files /\
+  ToolSpec.stmt_tool_output_options /\ ToolSpec.stmt_tool_abort_is_division_by_zero.
+Proof.
+  split; [exact ToolProofs.tool_check_prints_only_syntax_ok_holds |].
+  split; [exact ToolProofs.tool_deterministic_in_files_holds |].
+  split; [exact ToolProofs.tool_output_options_holds | exact ToolProofs.tool_abort_is_division_by_zero_holds].
+Qed.
+Print Assumptions C19_composed_tool_check_and_files.
+
+(* the version the composed tool prints is the package version of Cargo.toml read on this run *)
+Theorem C19_version_is_cargo_toml : gen_package_version = Some Tool.package_version.
+Proof. vm_compute. reflexivity. Qed.
+Print Assumptions C19_version_is_cargo_toml.
